@@ -479,11 +479,33 @@ def look_before_take(ctx, rule):
                 for nb, nt in b2.calls():
                     if callee_def(nt) != NPE:
                         continue
+                    # "follows" = the error is raised because of what the taken token turned out to be: it sits in a closure handed to a
+                    # combinator on a value computed from the advance's result, or on one side of a branch on such a value
                     if b2 is fn:
-                        follows = nb in fn.reachable_from_succs(bi)
+                        follows = False
+                        if nb in fn.reachable_from_succs(bi):
+                            for sb in fn.reachable_from_succs(bi):
+                                st_ = fn.term(sb)
+                                if st_["k"] != "switch" or (bi not in progress.deep_sources(fn, st_["on"]) and not progress._discr_source(fn, st_, bi)):
+                                    continue
+                                succ = fn.succs()[sb]
+                                if any(nb == x or nb in fn.reachable(x) for x in succ) and not all(nb == x or nb in fn.reachable(x) for x in succ):
+                                    follows = True
                     else:
-                        n_anchor = common.site_anchors(F, fn, b2, nb)
-                        follows = any(x == bi or x in fn.reachable_from_succs(bi) for x in n_anchor) if n_anchor else True
+                        follows = False
+                        cur = b2
+                        g_ = 0
+                        while cur is not None and cur is not fn and g_ < 4:
+                            g_ += 1
+                            u_ = _closure_use(F, cur)
+                            if not u_:
+                                follows = True
+                                break
+                            if u_[0] is fn:
+                                reach_ok = u_[1] == bi or u_[1] in fn.reachable_from_succs(bi)
+                                follows = reach_ok and any(bi in progress.deep_sources(fn, a_) or any(d == ("call", bi) for d, _ in origins(fn, a_)) for a_ in u_[2]["args"][:1])
+                                break
+                            cur = u_[0]
                     if not follows:
                         continue
                     if b2.kind == "closure":
